@@ -50,6 +50,13 @@ def seq_script(rng, sid):
         ops += [{"op": "lock", "c": path, "d": d, "k": k3, "ms": TO, "dl": 30, "tok": e1},
                 {"op": "lease", "tok": e1, "ms": 60000},
                 {"op": "dump", "d": d, "k": k3}]
+        # lease SHORTENS a timed lock: the lock is released at the leased timeout, not at the original one
+        n += 1
+        k4 = dmaplib.hx("S%d" % n)
+        s1 = "%s-s%d" % (d, n)
+        ops += [{"op": "lock", "c": path, "d": d, "k": k4, "ms": 60000, "dl": 30, "tok": s1},
+                {"op": "lease", "tok": s1, "ms": TO},
+                {"op": "dump", "d": d, "k": k4}]
     ops.append({"op": "sleep", "ms": TO + 2 * dmaplib.MARGIN + 60})
     n2 = 0
     for path in LPATHS:
@@ -66,6 +73,12 @@ def seq_script(rng, sid):
         e1, e2 = "%s-e%d" % (d, n2), "%s-f%d" % (d, n2)
         ops += [{"op": "lock", "c": rng.choice(LPATHS), "d": d, "k": k3, "ms": 0, "dl": 30, "tok": e2},   # leased: still held
                 {"op": "unlock", "tok": e1}]
+        n2 += 1
+        k4 = dmaplib.hx("S%d" % n2)
+        s1, s2 = "%s-s%d" % (d, n2), "%s-w%d" % (d, n2)
+        ops += [{"op": "lock", "c": rng.choice(LPATHS), "d": d, "k": k4, "ms": 0, "dl": 30, "tok": s2},   # the shortened lease ran out
+                {"op": "unlock", "tok": s1},                                                             # stale
+                {"op": "unlock", "tok": s2}]
     return {"id": sid, "ops": ops}
 
 
